@@ -8,6 +8,7 @@ import (
 	"encoding/json"
 	"fmt"
 	"os"
+	"reflect"
 	"sort"
 	"strconv"
 	"strings"
@@ -50,6 +51,9 @@ type pcls struct {
 	Elems []string // fingerprint of each element, "" for a nil element
 	Valid []bool
 	TypOK bool
+	// SelfEq: reflect.DeepEqual of two decodings of the payload (false when a hotspot rule has a
+	// specific item keyed by NaN): only then is an identical re-delivery skipped by the handler
+	SelfEq bool
 }
 
 func classify(m *module, payload string) (c pcls) {
@@ -72,7 +76,8 @@ func classify(m *module, payload string) (c pcls) {
 		return pcls{Kind: "nil"}
 	}
 	es, isNil, ok := m.elems(v)
-	c = pcls{Kind: "val", IsNil: isNil, TypOK: ok}
+	v2, _ := m.parser(src)
+	c = pcls{Kind: "val", IsNil: isNil, TypOK: ok, SelfEq: reflect.DeepEqual(v, v2)}
 	for _, e := range es {
 		if e == nil {
 			c.Elems = append(c.Elems, "")
@@ -224,7 +229,14 @@ func monitorH(c hcase, m *module, cls []pcls, obs []hobs, rep *emit.Report) (non
 		// identical re-delivery after a delivery that returned nil is a no-op
 		if i > 0 && c.Payloads[c.Ops[i-1].P] == c.Payloads[o.P] && obs[i-1].Ret == 0 {
 			redelivered = true
-			if ob.Ret != 0 || !sameStrings(ob.InForce, before) || ob.GenCalls != 0 {
+			if k.Kind == "val" && !k.SelfEq {
+				// DeepEqual is not reflexive on this value: the payload is loaded again
+				// (C18_redeliver_in_force): the rules in force must still be the same
+				if !sameStrings(ob.InForce, before) {
+					fail("C18_redeliver_in_force", "redelivery-changed-rules-in-force", fmt.Sprintf("rules in force %v -> %v", before, ob.InForce))
+					return
+				}
+			} else if ob.Ret != 0 || !sameStrings(ob.InForce, before) || ob.GenCalls != 0 {
 				fail("C18_idempotent", "identical-redelivery-not-a-noop", fmt.Sprintf("ret=%d generator calls=%d, rules in force %v -> %v", ob.Ret, ob.GenCalls, before, ob.InForce))
 				return
 			}
@@ -542,6 +554,16 @@ func main() {
 				if e == "" {
 					rep.Count("null_elements_delivered", 1)
 				}
+			}
+		}
+		for _, k := range cls {
+			if k.Kind == "val" && !k.SelfEq {
+				// the reference instance's DeepEqual is structural, hence reflexive: such cases are
+				// checked by the monitor only (C18_redeliver_in_force)
+				if corr {
+					rep.Count("handler_cases_with_non_reflexive_payload_monitor_only", 1)
+				}
+				corr = false
 			}
 		}
 		if corr && sh != nil {
